@@ -2431,7 +2431,13 @@ impl<'s> Semantics<'s> {
             let block = control_flow_graph.new_block()?;
 
             let src = self.operand_load(block, &detail.operands[1])?;
-            let value = Expr::sext((detail.operands[0].size as usize) * 8, src)?;
+            let bits = (detail.operands[0].size as usize) * 8;
+            // movsx r16, r/m16 (with an operand-size prefix) is a plain move
+            let value = if src.bits() == bits {
+                src
+            } else {
+                Expr::sext(bits, src)?
+            };
 
             self.operand_store(block, &detail.operands[0], value)?;
 
@@ -2451,7 +2457,13 @@ impl<'s> Semantics<'s> {
             let block = control_flow_graph.new_block()?;
 
             let src = self.operand_load(block, &detail.operands[1])?;
-            let value = Expr::zext((detail.operands[0].size as usize) * 8, src)?;
+            let bits = (detail.operands[0].size as usize) * 8;
+            // movd r/m32, xmm takes the low doubleword; movzx r16, r/m16 is a plain move
+            let value = match src.bits().cmp(&bits) {
+                std::cmp::Ordering::Greater => Expr::trun(bits, src)?,
+                std::cmp::Ordering::Equal => src,
+                std::cmp::Ordering::Less => Expr::zext(bits, src)?,
+            };
 
             self.operand_store(block, &detail.operands[0], value)?;
 
